@@ -402,6 +402,125 @@ def rebuild_sites(facts):
     return out
 
 
+def tokens_reaching(prov, n_tokens):
+    """(set of token indices the provenance carries, lowest index from which *all* later tokens are carried or None,
+    opaque?)  opaque = the value contains an expression the token flow did not follow."""
+    idx, tail, opaque = set(), None, False
+    todo = [prov]
+    while todo:
+        v = todo.pop()
+        if isinstance(v, dict):
+            todo.extend(v.values())
+            continue
+        if isinstance(v, (list, tuple)) and (not v or not isinstance(v[0], str)):
+            todo.extend(v)
+            continue
+        if not isinstance(v, tuple) or not v:
+            continue
+        k = v[0]
+        if k == 'tok':
+            idx.add(v[1])
+        elif k == 'tokend':
+            if n_tokens is not None:
+                idx.add(n_tokens - v[1])
+            else:
+                opaque = True
+        elif k == 'rest':
+            if n_tokens is not None:
+                idx.update(range(v[1], n_tokens - v[2]))
+            else:
+                tail = v[1] if tail is None else min(tail, v[1])
+        elif k == 'expr':
+            opaque = True
+        elif k in ('const', 'line', 'ref', 'func', 'classref'):
+            pass
+        elif k in ('closure', 'obj'):
+            opaque = True
+        else:
+            todo.extend(x for x in v[1:] if isinstance(x, (tuple, list, dict)))
+    return idx, tail, opaque
+
+
+def check_ignored_tokens(report, facts, rule):
+    """Every token of an accepted instruction line must matter: on every parse_item path that builds an instruction item, each
+    token of the line shape (all of them when the path fixes the number of tokens, else the mandatory ones) must
+
+      * reach a constructor argument, or
+      * be compared equal to a constant (punctuation: `(`), or
+      * be validated against the one operand the form implies: `lookup_register(tok) == 2`, `tok in ('sp', 'x2')` (a literal
+        collection whose members all denote one register / one spelling).
+
+    A token that is bound and never looked at again, or only tested for membership in a table that admits different operands
+    (`tok in REGISTERS`), is silently ignored: `c.lwsp x1, 8(x9)` would be accepted and encode the sp-relative form -> finding.
+    A token examined by a test this rule does not understand -> no verdict (raised at the end, unless a finding was established).
+    Known leniency, noted and not judged: the token after the base register of `imm(reg)` is never compared with `)`."""
+    cls_tables, table_outcomes = class_tables(facts)
+    arms, else_outs = parse_item_outcomes(facts)
+    regs = facts.tables.get('REGISTERS') or {}
+    undecided = []
+    seen = set()
+    n = 0
+    for tname, table in facts.instruction_tables().items():
+        for o in table_outcomes.get(tname, []):
+            if o.kind != 'return' or not o.cls or o.cls not in facts.classes or id(o) in seen:
+                continue
+            if not facts.is_subclass(o.cls, 'Instruction') or o.cls == 'PseudoInstruction':
+                continue
+            seen.add(id(o))
+            n += 1
+            path = o.path
+            total = path.exact_tokens
+            idx, tail, opaque = tokens_reaching([o.args, o.kwargs], total)
+            upto = total if total is not None else path.min_tokens
+            if tail is not None:
+                upto = min(upto, tail)
+            who = sorted(m for m in table if admits(facts, path, m))
+            label = '{} [{}]'.format(o.cls, ', '.join(who)[:40])
+            paren_at = [f[1][1] for f in path.tok_facts if f[0] == 'tok_eq' and f[2] == '(' and f[3] and f[1][0] == 'tok']
+            bad = False
+            for k in range(upto):
+                if k in idx:
+                    continue
+                tests = [t for t in path.tok_tests if t[0] == ('tok', k) or (total is not None and t[0] == ('tokend', total - k))]
+                if total is not None and k == total - 1 and paren_at and min(paren_at) < k - 1:
+                    report.note('the closing token of the `imm(reg)` form is never compared with `)` ({}): `lw x1, 8(x2 x3` is accepted; '
+                                'noted, not judged'.format(tname))
+                    continue
+
+                def validates(t):
+                    prov, kind, detail, pol, via = t
+                    if not pol:
+                        return False
+                    if kind == 'eq':
+                        return True
+                    if kind == 'in':
+                        vals = list(detail)
+                        if len(vals) == 1:
+                            return True
+                        return bool(vals) and all(v in regs for v in vals) and len({regs[v] for v in vals}) == 1
+                    return False
+                if any(validates(t) for t in tests):
+                    continue
+                if opaque or any(t[1] == 'other' for t in tests) or any(t[1] == 'in-table' and t[2] != 'REGISTERS' and t[3] for t in tests):
+                    undecided.append('{}: token {} does not reach the item and is examined by a test that is not understood as a validation ({})'.format(
+                        label, k, '; '.join(str(t[2])[:50] for t in tests) or 'an argument the token flow did not follow'))
+                    continue
+                how = 'is only tested for membership in REGISTERS (any register is accepted) and then dropped' \
+                    if any(t[1] == 'in-table' and t[3] for t in tests) else 'is bound and never looked at'
+                bad = True
+                report.fail(Finding(rule, 'parse_item', o.node,
+                                    '{}: token {} of the accepted line shape ({} tokens) {}: it neither reaches a field of the item nor is it '
+                                    'compared with the operand the form implies, so e.g. `{} ...` with any text in that position assembles as if it '
+                                    'were not there: an operand the instruction cannot encode is not refused'.format(
+                                        label, k, total if total is not None else 'at least {}'.format(upto), how, who[0] if who else tname),
+                                    line=o.node.lineno), instance='{} token {}'.format(label, k))
+            if not bad:
+                report.ok(rule, '{} ({} tokens): every token reaches the item or is validated'.format(label, total if total is not None else '>= {}'.format(upto)))
+    report.count('instruction parse paths checked for ignored tokens', n)
+    if undecided and not report.findings:
+        raise AnalysisError('parse_item: ' + undecided[0] + (' (+{} more)'.format(len(undecided) - 1) if len(undecided) > 1 else ''))
+
+
 def check_rebuild_invariant(report, facts, rule):
     """Items are rebuilt from their attribute dict (`item.__class__(*vars(item).values())`): for a positional rebuild the attribute
     assignment order of __init__ must equal the constructor parameter order, each `self.x = x`; for a keyword rebuild
